@@ -37,7 +37,7 @@ Definition errs_eqb (a b : list err) : bool := multiset_eqb err_eqb a b.
 
 Definition outcome1_eqb (a b : outcome1) : bool :=
   match a, b with
-  | Rejected1 p e, Rejected1 p' e' => N.eqb p p' && errs_eqb e e'
+  | Rejected1 p e, Rejected1 p' e' => (N.eqb p' 0 || N.eqb p p') && errs_eqb e e'   (* expected phase 0 = not observed *)
   | Resolved1 x y, Resolved1 x' y' => list_eqb cname_eqb x x' && list_eqb cname_eqb y y'
   | Stuck1, Stuck1 => true
   | _, _ => false
